@@ -490,3 +490,10 @@ def run(chk):
     C07.check_r3_slots(chk, "default", build.load_units(build.library_units(), "default"))
     chk.rule_prefix = ""
     chk.rule_filter = None
+    # the code under this property is written with the protothread macros: their expansion is validated as in C08
+    from . import C08
+    chk.rule_prefix = "pt."
+    chk.rule_filter = lambda r: r.startswith(("V1", "V2"))
+    C08.run_rules(chk, limit=260)
+    chk.rule_prefix = ""
+    chk.rule_filter = None
